@@ -34,11 +34,15 @@ class Monitor:
         self.mp_seen, self.bp_seen, self.given, self.sent = set(), set(), set(), set()
         self.last_mp = self.last_bp = None
         self.violations = []
+        # heights at which the mempool has reported and that no notification at that height or above has consumed yet: the
+        # monitor's OWN record (not read from the object), so a notification that throws such a record away is noticed
+        self.mp_fresh = set()
 
         async def notify(height, touched):
             if height not in self.mp_seen or height not in self.bp_seen:
                 self.violations.append(('agreed', f'notify({height}) without both reports'))
             self.sent |= set(touched)
+            self.mp_fresh = {x for x in self.mp_fresh if x > height}
         self._notify = notify
 
     def pending(self):
@@ -54,7 +58,7 @@ class Monitor:
     async def step(self, op, h, t):
         fell = self.keys_above(h)
         sent_before = set(self.sent)
-        mp_pending_at_h = h in self.n._touched_mp
+        mp_pending_at_h = h in self.mp_fresh
         if op == 'start':
             self.bp_seen.add(h)
             self.mp_seen.add(h)
@@ -64,6 +68,7 @@ class Monitor:
             self.mp_seen.add(h)
             self.given |= t
             self.last_mp = h
+            self.mp_fresh.add(h)
             await self.n.on_mempool(set(t), h)
         else:
             self.bp_seen.add(h)
